@@ -167,6 +167,16 @@ CHECKS = {
         "SQL-92 lexical rules are assumed for all three dialects; a LIKE pattern with its ESCAPE clause counts as one literal; only SQLite text is handed to a real engine (prepare).",
         "DESIGN.md §6 C07",
     ),
+    "C09": (
+        "Hypothesis typed-grammar generation with unique leaves x dialect x alias + exhaustive function x composite-argument table; oracle: independent SQL lexer + per-dialect Pratt parser, operator/leaf correspondence",
+        "Generated filters get unique field names and literal values so every leaf can be found again; each dialect's "
+        "output must parse under the harness's own SQL parser with that dialect's documented precedence (predicates "
+        "non-associative in SQL:1999/Trino, no bare placeholder words), every operator node of the filter must have "
+        "an SQL node with the same operator and exactly the operands' leaves on each side, every leaf must occur "
+        "once with its value, and the alias must qualify every field and nothing else.",
+        "Standard and Athena SQL are judged by vp/sqlparse.py only (no engine offline); argument order inside function templates is free.",
+        "DESIGN.md §6 C09",
+    ),
 }
 
 ALL = ["C%02d" % i for i in range(1, 21)]
